@@ -31,6 +31,10 @@ type c19Ref struct {
 	diagErr     string
 	meta        string // canonicalised metadata of a fresh session
 	metaErr     string
+	// answers of brand-new sessions that have NOT built their graph yet
+	diag0, diag0Err string
+	meta0, meta0Err string
+	graph0          string
 	graphAfterG string // graph shape after GenerateGraph
 	graphAfterI string // graph shape after GenerateGraph+GenerateIntermediate
 	runErr      string
@@ -88,11 +92,11 @@ func (o *ordersim) c19Reference(p *projgen.Project, engine, order string) *c19Re
 	os.MkdirAll(outDir, 0o755)
 	defer os.RemoveAll(outDir)
 	// three brand-new sessions, each in its own fresh process
-	specs := [][]string{{"GenerateGraph"}, {"GenerateGraph", "Validate"}, {"GenerateGraph", "GenerateIntermediate"}, {"Run"}}
+	specs := [][]string{{"GenerateGraph"}, {"GenerateGraph", "Validate"}, {"GenerateGraph", "GenerateIntermediate"}, {"Run"}, {"Validate"}, {"GenerateIntermediate"}}
 	res := make([]Result, len(specs))
 	var cfs []string
 	var mu sync.Mutex
-	parallel(len(specs), 4, func(i int) {
+	parallel(len(specs), 6, func(i int) {
 		j, cf := o.sessionJob(p, engine, order, specs[i], i == 2, outDir, fmt.Sprintf("r%d", i))
 		mu.Lock()
 		cfs = append(cfs, cf)
@@ -118,6 +122,12 @@ func (o *ordersim) c19Reference(p *projgen.Project, engine, order string) *c19Re
 	ref.meta, ref.metaErr = canonMeta(res[2].Calls[1].Meta), res[2].Calls[1].Err
 	ref.graphAfterI = res[2].Calls[1].Graph
 	ref.runErr = res[3].Calls[0].Err
+	ref.diag0, ref.diag0Err, ref.graph0 = res[4].Calls[0].Diag, res[4].Calls[0].Err, res[4].Calls[0].Graph
+	ref.meta0, ref.meta0Err = canonMeta(res[5].Calls[0].Meta), res[5].Calls[0].Err
+	if res[5].Calls[0].Graph != ref.graph0 {
+		ref.why = "ASSUMPTION: GenerateIntermediate on a graph-less fresh session changes the graph"
+		return ref
+	}
 	if ref.metaErr != "" || ref.runErr != "" {
 		ref.why = "fresh session is rejected: " + ref.metaErr + ref.runErr
 		return ref
@@ -235,10 +245,25 @@ func (o *ordersim) judgeC19(rc *c19RefCache, c C19Case) (class, msg string, res 
 		return "session-crashed", fmt.Sprintf("the session returned %d of %d calls: %s", len(res.Calls), len(c.Calls), res.Err), res
 	}
 	intermediateSeen := false
+	graphBuilt := false
 	for i, ob := range res.Calls {
 		where := fmt.Sprintf("call %d (%s) of %v", i+1, ob.Call, c.Calls)
+		if !graphBuilt && (ob.Call == "Validate" || ob.Call == "GenerateIntermediate") {
+			// the session has not analysed anything yet: it must answer like a brand-new session would
+			if ob.Call == "Validate" && (ob.Err != ref.diag0Err || ob.Diag != ref.diag0) {
+				return "diagnostics-differ", where + ": before the first analysis the session answers differently from a brand-new session: " + jsonPathDiff(ref.diag0, ob.Diag) + " " + clip(ob.Err, 100), res
+			}
+			if ob.Call == "GenerateIntermediate" && (ob.Err != ref.meta0Err || canonMeta(ob.Meta) != ref.meta0) {
+				return "metadata-differs", where + ": before the first analysis the session answers differently from a brand-new session: " + jsonPathDiff(ref.meta0, canonMeta(ob.Meta)) + " " + clip(ob.Err, 100), res
+			}
+			if ob.Graph != ref.graph0 {
+				return "graph-grows", fmt.Sprintf("%s: symbol graph is [%s], a brand-new session has [%s]", where, ob.Graph, ref.graph0), res
+			}
+			continue
+		}
 		switch ob.Call {
 		case "GenerateGraph":
+			graphBuilt = true
 			if ob.Err != "" {
 				return "call-fails", where + " fails although it succeeds in a fresh session: " + clip(ob.Err, 300), res
 			}
@@ -251,6 +276,7 @@ func (o *ordersim) judgeC19(rc *c19RefCache, c C19Case) (class, msg string, res 
 			}
 		case "GenerateIntermediate", "Run":
 			intermediateSeen = true
+			graphBuilt = true
 			if ob.Err != "" {
 				return "call-fails", where + " fails although it succeeds in a fresh session: " + clip(ob.Err, 300), res
 			}
@@ -294,7 +320,15 @@ func c19Signature(class string, calls []string) string {
 func drawCalls(r *projgen.Rand) []string {
 	all := []string{"GenerateGraph", "Validate", "GenerateIntermediate", "Run"}
 	n := r.Range(2, 10)
-	calls := []string{projgen.Pick(r, []string{"GenerateGraph", "GenerateGraph", "Run"})}
+	var calls []string
+	if r.Chance(1, 4) {
+		// an editor asking for diagnostics / metadata before anything was analysed
+		calls = append(calls, projgen.Pick(r, []string{"Validate", "GenerateIntermediate"}))
+		if r.Chance(1, 3) {
+			calls = append(calls, projgen.Pick(r, []string{"Validate", "GenerateIntermediate"}))
+		}
+	}
+	calls = append(calls, projgen.Pick(r, []string{"GenerateGraph", "GenerateGraph", "Run"}))
 	for len(calls) < n {
 		calls = append(calls, projgen.Pick(r, all))
 	}
@@ -326,9 +360,6 @@ func (o *ordersim) minimiseC19(rc *c19RefCache, c C19Case, class, msg string) (C
 			}
 			d := c
 			d.Calls = append(append([]string(nil), c.Calls[:i]...), c.Calls[i+1:]...)
-			if d.Calls[0] != "GenerateGraph" && d.Calls[0] != "Run" {
-				continue
-			}
 			if ok, m := fails(d); ok {
 				c, msg, changed = d, m, true
 			}
